@@ -245,6 +245,11 @@ class Run:
                 paths.append((p, v.get("message", "")))
         if st.caps:
             self.exhaustive = False
+        if st.traces == 0 and st.states > 0:
+            # the check drives the implementation directly (no separate model whose traces would need replaying):
+            # every explored input/state WAS produced by running the real code
+            st.traces = st.states
+            st.note("no separate model: every explored case is itself an execution of the real implementation (traces = states)")
         cov = {
             "states": st.states,
             "transitions": st.transitions,
